@@ -32,7 +32,7 @@ PROPS = {
 
 PROPS["C11"] = dict(
     family="fmt",
-    theorems=T("C11", "format_outcome_eq_spec", "format_eq_spec", "field_eq_spec", "int_eq_spec", "never_truncated_int", "never_truncated_text",
+    theorems=T("C11", "format_outcome_eq_spec", "format_eq_spec", "format_string_eq_spec", "field_eq_spec", "int_eq_spec", "never_truncated_int", "never_truncated_text",
                "length_eq_max_int", "length_eq_max_text", "zero_pad_position", "zero_flag", "sequential_ignores_refs", "escape_braces",
                "literal_verbatim", "char_class_wide"),
     partial="floating-point arguments: the libc rendering is a parameter (C13) and is assumed to fit the library's 64-byte buffer (Arg.FloatFits); the most negative "
@@ -55,13 +55,29 @@ PROPS["C11"] = dict(
 
 MANIFEST_TEXT = {
     "C10": dict(
-        text="(theorems under construction) model of fetch_prefix / next_format / parse_format / apply_format over a reader that is undefined behind the terminating NUL; "
-             "correspondence on every short string over a critical alphabet, grammar-directed random fields and every prefix of valid format strings under ASan",
-        design_ref="DESIGN.md section 3, C10", note="see evidence",
-        technique="Lean 4 proof over a hand model + differential correspondence under ASan/UBSan with abort/hang attribution"),
+        text="Theorems (every byte list as format string, every argument list; Lean kernel): the model of fetch_prefix / next_format / parse_format / apply_format reads "
+             "only indices <= |fmt| (the reader is undefined behind the terminating NUL, so a read there would be the outcome `oob`: parse_no_oob), every loop iteration "
+             "including the `end - 1` re-scan after a strtol that consumed nothing strictly advances (parse_terminates: the explicit progress guards never fail), and the "
+             "result is output, bad_format, out_of_range, unicode_error, invalid_argument (null format) or the documented char-padding assertion, which is raised exactly "
+             "by a parsed field with class c and a width or pad character on an integer/character argument. Partial: floating-point arguments are assumed to render into "
+             "fewer than 64 bytes (defect 13 belongs to C13; outcomes_all_args is the unconditional variant); results of 2^28 bytes or more hit the documented ST::string size "
+             "limit. Tied to the code by every string over a 16-symbol critical alphabet up to length 4/5, grammar-directed random fields and all prefixes of valid strings, "
+             "through four routes incl. a recording format_writer (exact sink-call sequence), each format string in an exact-size heap block under ASan.",
+        design_ref="DESIGN.md section 3, C10; notes/C10.md",
+        note="Trusted: Lean kernel + 3 standard axioms; Fmt.strtol10 as a model of glibc strtol (validated by the correspondence); float renderings supplied by the harness "
+             "from libc; machine-level loads observed by ASan, not proved.",
+        technique="Lean 4 proof over a hand model (reader monad, guarded well-founded loops) + differential correspondence under ASan/UBSan with abort/hang attribution"),
     "C11": dict(
-        text="(theorems under construction) Spec.Render: field grammar over the byte list, argument selection, integer/text/char renderings and padding; "
-             "model of pad_size / format_numeric_string / format_string / format_char / format_type; correspondence over the flag cross product",
-        design_ref="DESIGN.md section 3, C11", note="see evidence",
-        technique="Lean 4 proof over a hand model + differential correspondence under ASan/UBSan"),
+        text="Theorems (every format string without an embedded NUL, every argument list in the range of its C++ types; Lean kernel): the outcome of the model of "
+             "apply_format - the bytes received by the sink, or bad_format / out_of_range / the char-padding contract - equals Spec.Render.render, an independent "
+             "definition over the list of format bytes (literal text with {{ }} reduced, field grammar, left-to-right vs &N selection, sign/prefix/digits, zero padding "
+             "between prefix and digits, text cut to precision, UTF-8 of a code point or U+FFFD, pad run of max(0, width - natural length) bytes). Proved through parser = "
+             "grammar, scanner = literal splitter, formatter_id = selection and every format_type overload = renderField for all eight integer types (w = 8..64), "
+             "five character types, bool, narrow strings, null strings and floats (libc rendering as a parameter). Corollaries: never truncated, length = max(width, "
+             "natural), zero-pad position, sequential fields ignore &N, brace escapes. One genuine defect found by this check and repaired: {c} of a 64-bit integer "
+             "tested the code-point range after narrowing to int. Tied to the code by the flag cross product over boundary values of every argument type, byte-exact.",
+        design_ref="DESIGN.md section 3, C11; notes/C11.md",
+        note="Trusted: Lean kernel + 3 standard axioms; Spec/Render.lean as the meaning of the property (readings chosen are listed in DESIGN C11); Fmt.strtol10; "
+             "floating-point renderings are a parameter (C13); wide-string arguments are not modelled.",
+        technique="Lean 4 proof (refinement of a pointer-walking parser and sink-event renderer to a list-level spec) + differential correspondence under ASan/UBSan"),
 }
